@@ -10,6 +10,8 @@ class RunResult:
         self.exc = None
         self.rec = None
         self.residue = None
+        self.ctx_unchanged = None
+        self.ctx_diff = None
 
 
 def run_real(program, mode, opts=None, budget=None, tick=None, keep_state=False):
@@ -32,7 +34,16 @@ def run_real(program, mode, opts=None, budget=None, tick=None, keep_state=False)
             res.src = src
             res.classes = classes
             t = Template(src)
-            res.out = t.render(Context(ctx))
+            c = Context(ctx)
+            with c.update({"vf_layer": "L"}):  # the caller has a scope of its own open
+                before = ([dict(d) for d in c.dicts], len(c.render_context.dicts), c.template, dict(c.render_context.dicts[-1]))
+                try:
+                    res.out = t.render(c)
+                finally:
+                    after = ([dict(d) for d in c.dicts], len(c.render_context.dicts), c.template, dict(c.render_context.dicts[-1]))
+                    res.ctx_unchanged = before == after
+                    if not res.ctx_unchanged:
+                        res.ctx_diff = "before=%r after=%r" % (before, after)
         except RecursionError as e:
             res.exc = e
         except Exception as e:  # noqa
